@@ -77,7 +77,7 @@ func knownID(f Failure) string {
 	if id := knownSig[f.Sig()]; id != "" {
 		return id
 	}
-	if f.Kind == "death-stack" || f.Kind == "death-exhaust" {
+	if f.Kind == "death-stack" || f.Kind == "death-exhaust" || f.Kind == "hang" {
 		// "death-stack|subset-of:A+B+C|stack overflow": every function of the recursion cycle is one of A, B, C
 		for _, ss := range knownStackSets {
 			ok := ss.kind == f.Kind
